@@ -6,6 +6,7 @@
 #include <string>
 #include <cstdio>
 
+#include <functional>
 namespace CL = Clipper2Lib;
 
 static void ser(std::string& s, const CL::Paths64& pp) { for (auto& p : pp) { s += "("; for (auto& q : p) { s += std::to_string(q.x); s += ","; s += std::to_string(q.y); s += " "; } s += ")"; } }
@@ -31,10 +32,12 @@ void bodies_setup_shared() {
   sched_log_allocs(0);
 }
 
-int bodies_count() { return 9; }
+int bodies_count() { return 12; }
 const char* bodies_name(int b) {
   static const char* n[] = {"B1 Clipper64+shared container (Intersection->paths)", "B2 Clipper64+shared container (Xor->tree)", "B3 ClipperD", "B4 ClipperOffset round/joined", "B5 RectClip+RectClipLines", "B6 MinkowskiSum", "B7 utilities",
-                           "B8 ClipperOffset delta callback, round joins", "B9 Clipper64->PolyTree, island inscribed in its hole"};
+                           "B8 ClipperOffset delta callback, round joins", "B9 Clipper64->PolyTree, island inscribed in its hole",
+                           "B10 PathsD free functions (RectClip, InflatePaths, Union, TrimCollinear, MinkowskiSum)", "B11 PathsD free functions called with an invalid precision / out-of-range coordinates (error path)",
+                           "B12 ClipperD->PolyTreeD (precision 2 / 5), nested children"};
   return n[b];
 }
 
@@ -62,5 +65,32 @@ void bodies_run(int body, int variant, std::string& out) {
       CL::Path64 hole, island; for (int i = 0; i < 12; ++i) { hole.emplace_back(HX[i] + 50 + d, HY[i] + 50); if (i % 3 == 0) island.emplace_back(HX[i] + 50 + d, HY[i] + 50); }
       CL::Clipper64 c; c.AddSubject(CL::Paths64{mk({0 + d, 0, 100 + d, 0, 100 + d, 100, 0 + d, 100}), hole, island});
       CL::PolyTree64 t; CL::Paths64 o; bool ok = c.Execute(CL::ClipType::Union, CL::FillRule::EvenOdd, t, o); out += ok ? "T" : "F"; serT(out, t); break; }
+    case 9: { // the floating-point convenience functions (each has its own local error code)
+      double e = (double)d; int prec = variant ? 3 : 1;
+      CL::PathsD in{{{0.5 + e, 50.25}, {50.0 + e, 0.75}, {100.5 + e, 50.0}, {50.25 + e, 100.0}}, {{30.0 + e, 30.5}, {60.5 + e, 35.0}, {50.0 + e, 60.25}}};
+      serD(out, CL::RectClip(CL::RectD(20.5 + e, 20.0, 70.0 + e, 70.5), in, prec));
+      serD(out, CL::InflatePaths(in, 2.5 + e, CL::JoinType::Round, CL::EndType::Polygon, 2.0, prec, 0.0));
+      serD(out, CL::Union(in, CL::PathsD{{{10.0 + e, 10.0}, {40.5 + e, 12.0}, {20.0 + e, 45.5}}}, CL::FillRule::NonZero, prec));
+      serD(out, CL::PathsD{CL::TrimCollinear(CL::PathD{{0.0 + e, 0.0}, {5.0 + e, 0.0}, {10.0 + e, 0.0}, {10.0 + e, 10.0}, {0.0 + e, 10.0}}, prec)});
+      serD(out, CL::MinkowskiSum(CL::PathD{{-1.5, -1.0}, {2.0 + e, -0.5}, {0.5, 2.5}}, in[1], true, prec));
+      break; }
+    case 10: { // the error path of the same functions: invalid precision and coordinates outside the permitted range
+      CL::PathsD in{{{0.5, 50.25}, {50.0, 0.75}, {100.5, 50.0}}};
+      for (int k = 0; k < 3; ++k) {
+        try {
+          if (k == 0) serD(out, CL::RectClip(CL::RectD(20.5, 20.0, 70.0, 70.5), in, variant ? -12 : 12));
+          else if (k == 1) serD(out, CL::InflatePaths(CL::PathsD{{{1e18, 0.0}, {2e18, 5.0}, {1.5e18, 4e18}}}, 2.5, CL::JoinType::Miter, CL::EndType::Polygon, 2.0, variant ? 4 : 6, 0.0));
+          else serD(out, CL::Union(in, CL::PathsD(), CL::FillRule::NonZero, variant ? 9 : -9));
+          out += "|returned|";
+        } catch (const std::exception& ex) { out += "|threw:"; out += ex.what(); out += "|"; }
+      }
+      break; }
+    case 11: { // ClipperD into a PolyTreeD: every node de-scales its polygon with the tree's own scale
+      CL::ClipperD c(variant ? 5 : 2); double e = (double)d;
+      CL::PathsD s{{{0.0 + e, 0.0}, {100.25 + e, 0.0}, {100.0 + e, 100.5}, {0.0 + e, 100.0}}, {{10.0 + e, 10.0}, {10.0 + e, 90.125}, {90.0 + e, 90.0}, {90.5 + e, 10.0}},
+                   {{20.0 + e, 20.0}, {40.0 + e, 20.5}, {40.25 + e, 40.0}, {20.0 + e, 40.0}}, {{50.0 + e, 50.0}, {80.0 + e, 50.5}, {80.25 + e, 80.0}, {50.0 + e, 80.0}}, {{55.0 + e, 55.0}, {55.0 + e, 75.5}, {75.0 + e, 75.0}, {75.5 + e, 55.0}}};
+      c.AddSubject(s); CL::PolyTreeD t; CL::PathsD o; bool ok = c.Execute(CL::ClipType::Union, CL::FillRule::EvenOdd, t, o); out += ok ? "T" : "F";
+      std::function<void(const CL::PolyPathD&)> walk = [&](const CL::PolyPathD& n) { out += "{"; serD(out, CL::PathsD{n.Polygon()}); for (auto& ch : n) walk(*ch); out += "}"; };
+      walk(t); break; }
   }
 }
